@@ -1084,7 +1084,11 @@ func (w *world) applyFeedbackRTPFB(d *fbDec) {
 			if s == nil || s.reported {
 				continue
 			}
-			s.fb = &fbState{e: e, d: d, prevReported: s.prev != nil && s.prev.reported}
+			st := &fbState{e: e, d: d}
+			for p := s.prev; p != nil && !st.prevReported; p = p.prev {
+				st.prevReported = p.reported
+			}
+			s.fb = st
 		}
 	}
 }
@@ -1316,6 +1320,7 @@ func (w *world) calibrate() {
 		return
 	}
 	w.c.Add("packets_sent", 1)
+	s.delivered = true // the calibration feedback is hand-built, also in closed-loop cases
 	w.clk.Advance(time.Millisecond)
 	raw := gen.RawTWCC(w.r.U32(), s.ssrc, s.twccSeq, 1, uint32(w.r.Range(1, 1<<20)), 0,
 		[]uint16{gen.RunChunk(1, 1)}, []byte{byte(w.r.Range(1, 255))})
